@@ -1,9 +1,9 @@
 package bundle
 
 import (
+	"bytes"
 	"context"
 	"fmt"
-	"strings"
 	"time"
 
 	"slices"
@@ -103,8 +103,10 @@ func (vc *VerificationCache) Verify(ctx context.Context, dissByPerm map[Macaroon
 	hdrByPerm := make(map[Macaroon]string)
 
 	for perm, diss := range dissByPerm {
-		// sort discharges so we'll get the same cache key regardless of order
-		slices.SortFunc(diss, func(a, b Macaroon) int { return strings.Compare(a.String(), b.String()) })
+		// sort discharges so we'll get the same cache key regardless of the order
+		// of discharges for different tickets. Candidates for the same ticket keep
+		// their order: the first acceptable one is the one that gets used.
+		slices.SortStableFunc(diss, func(a, b Macaroon) int { return bytes.Compare(a.Nonce().KID, b.Nonce().KID) })
 
 		hdr := String(append(diss, perm)...)
 
